@@ -430,7 +430,7 @@ def run(ctx, drv):
         obj = json.load(open(f))
         check_case(ctx, drv, obj.get("replay", obj)["case"])
         ctx.count("corpus")
-    ncases = 400 if ctx.tier == "quick" else 6000
+    ncases = 2500 if ctx.tier == "quick" else 40000
     for _ in range(ncases):
         if ctx.time_left() < 5:
             break
